@@ -24,8 +24,8 @@ ASSUMPTIONS = [
     "UUIDs are pairwise distinct among nodes of one tree (a move that would put a loaded twin next to its original is a counted no-op)",
 ]
 REQUIRED_TAGS = {
-    "quick": ["cross-ir-move", "reattach", "op:load", "op:new", "op:list.setslice", "op:set.ixor"],
-    "thorough": ["cross-ir-move", "reattach", "op:load", "op:new", "op:list.setslice", "op:set.ixor"],
+    "quick": ["failed-op:list.insert-bad-index", "failed-op:set.update", "view-operand:list.extend:other", "ctor-children:repeated", "cross-ir-move", "reattach", "op:load", "op:new", "op:list.setslice", "op:set.ixor"],
+    "thorough": ["failed-op:list.insert-bad-index", "failed-op:set.update", "view-operand:list.extend:other", "ctor-children:repeated", "cross-ir-move", "reattach", "op:load", "op:new", "op:list.setslice", "op:set.ixor"],
 }
 PREFIXES = ("cache:",)
 
